@@ -3,10 +3,10 @@
 here="$(cd "$(dirname "$0")/.." && pwd)"; . "$here/env.sh"
 miss=0
 for d in "$here"/seeded/C*/; do
-  id=$(basename "$d")
+  id=$(basename "$d"); prop=${id%%-*}
   s=/root/work/seedreg.$$; "$here/tools/scratch.sh" "$s" || exit 3
   if ! (cd "$s" && patch -p1 -s < "$d/patch.diff" >/dev/null 2>&1); then echo "$id: patch does not apply"; rm -rf "$s"; continue; fi
-  if "$here/bin/vsa" -p "$id" -repo "$s" -evidence none -findings "$here/known_findings.txt" > /tmp/seedreg.$$.out 2>&1; then echo "$id: MISSED"; miss=$((miss+1)); else echo "$id: detected ($(grep -c '\[violated\]\|\[undecided\]' /tmp/seedreg.$$.out) obligation(s))"; fi
+  if "$here/bin/vsa" -p "$prop" -repo "$s" -evidence none -findings "$here/known_findings.txt" > /tmp/seedreg.$$.out 2>&1; then echo "$id: MISSED"; miss=$((miss+1)); else echo "$id: detected ($(grep -c '\[violated\]\|\[undecided\]' /tmp/seedreg.$$.out) obligation(s))"; fi
   rm -rf "$s" /tmp/seedreg.$$.out
 done
 echo "missed: $miss"
